@@ -21,6 +21,7 @@ type xnode struct {
 	key  string
 	key2 string
 	vals []string
+	num  bool // the value list also holds a number
 	fid  int
 }
 
@@ -71,7 +72,7 @@ func genXPred(r *runner, depth int, res *[]*reAtom) *xnode {
 				}
 			}
 			sort.Strings(vs)
-			return &xnode{kind: kind, key: k, vals: vs}
+			return &xnode{kind: kind, key: k, vals: vs, num: rg.Chance(10)}
 		case x < 72:
 			kind := byte('e')
 			if rg.Bool() {
@@ -107,6 +108,10 @@ func (x *xnode) expr() influxql.Expr {
 		m := map[interface{}]bool{}
 		for _, v := range x.vals {
 			m[v] = true
+		}
+		if x.num {
+			// a number in the list, as the parser stores it: it equals no tag value
+			m[float64(len(x.vals))] = true
 		}
 		op := influxql.IN
 		if x.kind == 'n' {
